@@ -166,6 +166,43 @@ func dsRefNodes(root *hx.Val) []*hx.Val {
 	return out
 }
 
+// dsScopeNodes lists the scope nodes (maps with a string `root` and a map `objects`) of a description,
+// in walk order: the top-level scope, nested scopes used as types, the data scopes of plugin schemas.
+func dsScopeNodes(root *hx.Val) []*hx.Val {
+	var out []*hx.Val
+	root.Walk(func(x *hx.Val) {
+		if x.Kind != "m" {
+			return
+		}
+		r, o := dsGetField(x, "root"), dsGetField(x, "objects")
+		if r != nil && r.Kind == "s" && o != nil && o.Kind == "m" {
+			out = append(out, x)
+		}
+	})
+	return out
+}
+
+func dsGetField(m *hx.Val, key string) *hx.Val {
+	for _, kv := range m.M {
+		if kv[0].Kind == "s" && kv[0].S == key {
+			return kv[1]
+		}
+	}
+	return nil
+}
+
+// dsRootObject returns the description of the root object of a scope node, or nil.
+func dsRootObject(scope *hx.Val) *hx.Val {
+	r, o := dsGetField(scope, "root"), dsGetField(scope, "objects")
+	if r == nil || o == nil {
+		return nil
+	}
+	if ro := dsGetField(o, r.S); ro != nil && ro.Kind == "m" {
+		return ro
+	}
+	return nil
+}
+
 // dsSetField sets (or adds) a string-keyed entry of a map node.
 func dsSetField(m *hx.Val, key string, v *hx.Val) {
 	for i, kv := range m.M {
@@ -619,6 +656,11 @@ func dsLinkProblems(sc schema.Type) (problems []string) {
 				problems = append(problems, fmt.Sprintf("unlinked reference to %q in namespace %q at %s", x.ID(), x.Namespace(), path))
 			}
 		case *schema.ScopeSchema:
+			if ro, ok := x.Objects()[x.Root()]; !ok || ro == nil {
+				problems = append(problems, fmt.Sprintf("scope at %s has no root object %q", path, x.Root()))
+			} else if ro.ID() != x.Root() {
+				problems = append(problems, fmt.Sprintf("root object of the scope at %s has ID %q under key %q (RootObject() panics)", path, ro.ID(), x.Root()))
+			}
 			ids := make([]string, 0, len(x.Objects()))
 			for id := range x.Objects() {
 				ids = append(ids, id)
@@ -824,6 +866,53 @@ func dsRebuildCmd(a Args) {
 			}
 			add(mode, c, kind+": "+note+" (reference "+strconv.Itoa(ri)+")")
 		}
+		// targeted: the root object of every scope of the description (top level, nested scopes, data
+		// scopes of steps) gets an ID different from its key - with and without `id_unenforced` -, is
+		// merely marked unenforced (stays valid), or has its `id` retyped / renamed away
+		nScopes := len(dsScopeNodes(desc))
+		s.stats["scopes:"+kind] += nScopes
+		scIdx := g.R.Perm(nScopes)
+		if !thorough && len(scIdx) > 4 {
+			scIdx = scIdx[:4]
+		}
+		for n, si := range scIdx {
+			c := dsCopyVal(desc)
+			ro := dsRootObject(dsScopeNodes(c)[si])
+			if ro == nil {
+				continue
+			}
+			var note string
+			variant := g.R.Intn(5)
+			if n == 0 {
+				variant = 0 // at least one unenforced root with a differing ID per seed description
+			}
+			switch variant {
+			case 0, 3:
+				dsSetField(ro, "id_unenforced", hx.Bool(true))
+				dsSetField(ro, "id", hx.Str([]string{"zz", "Other", "O1"}[g.R.Intn(3)]+"x"))
+				note = "root-unenforced-id-mismatch"
+			case 1:
+				dsSetField(ro, "id", hx.Str("zzx"))
+				note = "root-id-mismatch"
+			case 2:
+				dsSetField(ro, "id_unenforced", hx.Bool(true))
+				note = "root-unenforced"
+			default:
+				dsSetField(ro, "id_unenforced", hx.Bool(true))
+				if g.R.Intn(2) == 0 {
+					dsSetField(ro, "id", hx.Int("int64", 5)) // the string schema reads it as "5"
+					note = "root-unenforced-id-retype"
+				} else {
+					for i, kv := range ro.M {
+						if kv[0].Kind == "s" && kv[0].S == "id" {
+							ro.M[i][0] = hx.Str("ident")
+						}
+					}
+					note = "root-unenforced-id-rename"
+				}
+			}
+			add(mode, c, kind+": "+note+" (scope "+strconv.Itoa(si)+")")
+		}
 		for i := 0; i < doubles; i++ {
 			c := dsCopyVal(desc)
 			n1 := dsApply(g, c, dsSites(c)[g.R.Intn(nSites)])
@@ -840,6 +929,16 @@ func dsRebuildCmd(a Args) {
 		switch {
 		case i%5 == 4:
 			p := d.plugin()
+			if g.R.Intn(3) == 0 {
+				_, scs := p.scopes()
+				for _, sc := range scs {
+					for _, o := range sc.Objs {
+						if o.ID == sc.Root && g.R.Intn(2) == 0 {
+							o.Ty.Unenforced = true
+						}
+					}
+				}
+			}
 			var desc any
 			r := hx.Guard(func() hx.Result {
 				v, err := p.build().SelfSerialize()
@@ -861,6 +960,18 @@ func dsRebuildCmd(a Args) {
 			mutants(mode, dv, "plugin", 10, 3)
 		default:
 			t := d.scope(false)
+			if g.R.Intn(3) == 0 {
+				// a root object that does not enforce its ID (also the root of a nested scope, if any)
+				t.walk(func(x *dsTy) {
+					if x.T == "scope" {
+						for _, o := range x.Objs {
+							if o.ID == x.Root {
+								o.Ty.Unenforced = true
+							}
+						}
+					}
+				})
+			}
 			var desc any
 			r := hx.Guard(func() hx.Result {
 				v, err := t.buildScope().SelfSerialize()
@@ -961,6 +1072,22 @@ func dsWitnessesC10(add func(mode string, v *hx.Val, note string)) {
 	okOut := m(kv("schema", scope("O", kv("O", obj("O")))))
 	stepS := m(kv("id", S("s")), kv("input", child(nsref("T", "other"))), kv("outputs", m(kv("ok", okOut))))
 	add("schema", m(kv("steps", m(kv("s", stepS)))), "witness: foreign-namespace reference in a non-root object of a step input")
+	// a root object that does not enforce its ID still has to carry the ID it is registered under
+	// (RootObject() compares unconditionally): top level, nested scope, step input, step output
+	unenfRoot := func(key, id string) *hx.Val {
+		o := obj(id, kv("x", prop(strT, opt)), kv("y", prop(strT, opt)))
+		o.M = append(o.M, kv("id_unenforced", hx.Bool(true)))
+		return scope(key, kv(key, o))
+	}
+	add("scope", unenfRoot("Obj1", "zz"), "witness: unenforced root object whose ID differs from its key")
+	add("scope", unenfRoot("Obj1", "Obj1"), "witness: unenforced root object with the matching ID (valid)")
+	nested := unenfRoot("Inner", "zz")
+	nested.M = append(nested.M, kv("type_id", S("scope")))
+	add("scope", scope("A", kv("A", obj("A", kv("sub", prop(nested, opt)), kv("d", prop(strT, opt))))), "witness: unenforced root object with a differing ID in a nested scope")
+	stepIn := m(kv("id", S("s")), kv("input", unenfRoot("Obj1", "zz")), kv("outputs", m(kv("ok", okOut))))
+	add("schema", m(kv("steps", m(kv("s", stepIn)))), "witness: unenforced root object with a differing ID in a step input")
+	stepOut := m(kv("id", S("s")), kv("input", scope("O", kv("O", obj("O")))), kv("outputs", m(kv("ok", m(kv("schema", unenfRoot("Obj1", "zz")))))))
+	add("hello", m(kv("steps", m(kv("s", stepOut)))), "witness: unenforced root object with a differing ID in a step output")
 	// known finding D13: recursion that does not consume input
 	add("scope", scope("A", kv("A", obj("A", kv("n", prop(ref("A"), kv("required", hx.Bool(false)), kv("default", S("{}"))))))), "witness D13: default re-enters its own object")
 	add("scope", scope("A", kv("A", obj("A", kv("next", prop(ref("A"), kv("required", hx.Bool(false))))))), "witness D13: single-property object referring to itself")
